@@ -245,15 +245,19 @@ impl Oracle {
         // ---- C17: progress resets the NAK count - a NAK-limit fault can only be declared when nothing new has been
         // received since the previous NAK round (seeded change C17f tested the limit before looking at the progress)
         if self.is_recv {
+            // (no data arrives inside an operation that runs the send / timeout arms, so a NAK PDU emitted by this very
+            // operation was emitted at the current progress figure; the order of PDUs and indications within one
+            // operation is not observed)
+            let nak_now = o.pdus.iter().any(|(_, p)| matches!(&p.payload, PDUPayload::Directive(Operations::Nak(_))));
+            if nak_now {
+                self.pr_at_last_nak = Some(o.pr);
+            }
             for i in &o.inds {
                 if let Indication::Fault(f) = i {
                     if f.condition == Condition::NakLimitReached && o.pr != self.pr_at_last_nak.unwrap_or(0) {
                         self.fail(orc, "C17", k, format!("NAK limit fault although the receiver made progress since its previous NAK round ({} -> {} bytes)", self.pr_at_last_nak.unwrap_or(0), o.pr));
                     }
                 }
-            }
-            if o.pdus.iter().any(|(_, p)| matches!(&p.payload, PDUPayload::Directive(Operations::Nak(_)))) {
-                self.pr_at_last_nak = Some(o.pr);
             }
         }
         // ---- C19 / C17: timers count only un-suspended time - after a resume every timer starts a fresh
